@@ -376,3 +376,38 @@ contract(S + 'TileLayer.checked_dimensions', props=['C16', 'C09'],
                       'contains': {'returns': 'bool', 'pure': True}},
          raises={'RequestError': True},
          loops={0: dict(inv=[], types={'dimensions': 'opaque'}, body_trace=[_dimension_value_checked], raise_trace=[_dimension_refused])})
+
+
+# ---- WMTS GetFeatureInfo: the tile address is validated and converted like for GetTile before anything is asked -------------------------
+def _wmts_fi_address(ex, st, post, result):
+    import z3
+    req = post.env['request']
+    iq = [(i, e) for i, e in T.evs(st, 'InfoQuery')]
+    tb = [(i, e) for i, e in T.evs(st, 'tile_bbox')]
+    gi = [(i, e) for i, e in T.evs(st, 'get_info')]
+    chk = [(i, e) for i, e in T.evs(st, 'check_request')]
+    if not iq:
+        yield ('refused_before_any_query', z3.BoolVal(not gi), 'no feature info is requested without a validated query')
+        return
+    ok = len(iq) == 1 and len(chk) == 1 and chk[0][0] < iq[0][0] and len(tb) >= 1 and tb[0][0] < iq[0][0] \
+        and iq[0][1].args[0] is tb[0][1].result and any(a is req for a in tb[0][1].args) and not tb[0][1].kwargs \
+        and all(iq[0][0] < i for i, e in gi)
+    # the rectangle comes from the LAYER's tile_bbox(request) (which raises TileOutOfRange outside the matrix and maps the
+    # WMTS address to the internal one), not from grid.tile_bbox(<raw address>)
+    h_layers = st.heap[post.env['self'].ref]['layers']
+    from_layer = ok and tb[0][1].recv is not None and len([a for a in tb[0][1].args if a is not tb[0][1].recv]) == 1
+    yield ('feature_info_for_a_validated_tile_address', z3.BoolVal(bool(ok and from_layer)),
+           'the InfoQuery rectangle is tile_layer.tile_bbox(request): the address was checked against the matrix (TileOutOfRange '
+           'otherwise) and converted to the internal numbering, after check_request and before any source is asked')
+
+
+contract('mapproxy.service.wmts:WMTSServer.featureinfo', props=['C16', 'C01'],
+         types=dict(request='opaque'), returns='opaque', default_callee='opaque', raises={'RequestError': True},
+         opaque_spec={'check_request': {'raises': ['RequestError']}, 'tile_bbox': {'raises': ['RequestError'], 'pure': True},
+                      'InfoQuery': {'pure': True}, 'check_request_dimensions': {'raises': ['RequestError']},
+                      'authorize_tile_layer': {'raises': ['RequestError'], 'returns': 'opt[opaque]'}, 'contains': {'returns': 'bool', 'pure': True},
+                      'get_info': {'returns': 'opt[opaque]'}, 'combine_docs': {'returns': 'tuple[opaque,opaque]', 'pure': True},
+                      'Response': {'pure': True}, 'get': {'pure': True}},
+         opaque=['check_request', 'check_request_dimensions', 'authorize_tile_layer'],
+         loops={0: dict(inv=[], types={'infos': 'opaque'})},
+         trace=[_wmts_fi_address])
